@@ -266,7 +266,7 @@ class C14(object):
             nontrivial = nnz >= 2
         else:
             # overlaps: a history on reused cache objects
-            ns2, nf2 = max(ns, 2), max(nf, 2)
+            ns2, nf2 = max(min(ns, 65400), 2), max(min(nf, 65400), 2)  # room for the +50 row offset below uint16's end
             begin()
             with contextlib.redirect_stdout(io.StringIO()):
                 lin = sf.overlaps_linear(nnzmax=rnd.choice([4, 16, 4096]))
